@@ -91,6 +91,7 @@ class FakeSecrets:
     def token_bytes(self, n=32):
         self.requests.append(n)
         self.count += 1
+        self.last_n = n
         if self.mode == 'const':
             b = b'\x00' * n
         elif self.mode == 'ones':
